@@ -16,6 +16,23 @@ type endpoint interface {
 	SetOption(string, interface{}) error
 }
 
+// route: routing header for raw REP / RESPONDENT replies (set per path by learnRoute)
+var route []byte
+
+// learnRoute lets a request arrive on p and takes its routing header for the raw replies to come.
+func learnRoute(proto string, sock mangos.Socket, p *vt.Pipe) {
+	route = nil
+	if p == nil || (proto != "xrep" && proto != "xrespondent") {
+		return
+	}
+	p.Deliver([]byte{0x80, 0, 0, 1, 'q'})
+	verif.Quiesce()
+	if rm, err := sock.RecvMsg(); err == nil {
+		route = append([]byte{}, rm.Header...)
+		rm.Free()
+	}
+}
+
 func newMsg(proto string) *mangos.Message {
 	m := mangos.NewMessage(2)
 	m.Body = append(m.Body, 'h', 'i')
@@ -23,7 +40,11 @@ func newMsg(proto string) *mangos.Message {
 	case "xpair1", "xstar":
 		m.Header = append(m.Header, 0, 0, 0, 0)
 	case "xrep", "xrespondent":
-		m.Header = append(m.Header, 0, 0, 0, 1, 0x80, 0, 0, 1) // unknown pipe id: dropped, must not block
+		if route != nil {
+			m.Header = append(m.Header, route...) // the routing header of a request that really arrived
+		} else {
+			m.Header = append(m.Header, 0, 0, 0, 1, 0x80, 0, 0, 1) // unknown pipe id: dropped, must not block
+		}
 	case "xreq", "xsurveyor":
 		m.Header = append(m.Header, 0x80, 0, 0, 1)
 	}
@@ -86,14 +107,30 @@ func VH18a_modes() {
 		if ep.SetOption(mangos.OptionSendDeadline, d) != nil {
 			verif.Assume(false)
 		}
+		if peers == 0 && verif.Choice("stalled-peer", 2) == 1 {
+			// a short per-connection queue, so that a stalled peer makes a send wait within a few messages
+			sock.SetOption(mangos.OptionWriteQLen, 1)
+			side = vt.Listen(sock, "a")
+			p1 = side.Peer("p1")
+		}
+		learnRoute(proto, sock, p1)
 		if p1 != nil {
 			p1.SendMode = vt.SendBlock
 		}
-		t0 := verif.Now()
+		answering := proto == "rep" || proto == "respondent"
 		// keep sending until one blocks (queues fill up) or 6 were accepted
 		for i := 0; i < 6; i++ {
+			if answering && p1 != nil {
+				p1.Deliver([]byte{0x80, 0, 0, byte(i + 1), 'q'})
+				verif.Quiesce()
+				if _, rerr := ep.RecvMsg(); rerr != nil {
+					break
+				}
+			}
 			var err error
 			msg := newMsg(proto)
+			hdr0 := append([]byte{}, msg.Header...)
+			t1 := verif.Now()
 			g := verif.Go("send", func() { err = ep.SendMsg(msg) })
 			verif.Quiesce()
 			if g.Done() {
@@ -103,25 +140,58 @@ func VH18a_modes() {
 				}
 				continue
 			}
-			fired := verif.FireTimer()
+			// blocked: the deadline timers of earlier, completed calls may still be pending and fire first
+			fired := false
+			for k := 0; k < 8 && !g.Done(); k++ {
+				if verif.FireTimer() {
+					fired = true
+				}
+			}
 			verif.Assert(fired, lab+"/send-deadline-set-but-no-timer-pending")
 			verif.Assert(g.Done(), lab+"/send-hangs-beyond-deadline")
 			if g.Done() {
 				verif.Assert(err == mangos.ErrSendTimeout, lab+"/send-deadline-error-kind")
-				verif.Assert(verif.Now() >= t0+d, lab+"/send-timed-out-early")
+				verif.Assert(verif.Now() >= t1+d, lab+"/send-timed-out-early")
 				verif.Assert(len(msg.Body) == 2 && msg.Body[0] == 'h', lab+"/failed-send-changed-the-message")
+				if proto[0] == 'x' {
+					verif.Assert(verif.BytesEq(msg.Header, hdr0) && len(msg.Header) == len(hdr0), lab+"/failed-send-changed-the-header")
+				}
 				verif.Reach("send-timeout")
 			}
 			break
 		}
-	case 2: // best effort never blocks
+	case 2: // best effort never blocks - with or without a send deadline set as well, with a short queue and a stalled peer
 		if ep.SetOption(mangos.OptionBestEffort, true) != nil {
 			verif.Assume(false)
 		}
+		withDeadline := verif.Choice("with-send-deadline", 2) == 1
+		if withDeadline {
+			d := verif.Duration("send-deadline")
+			verif.Assume(verif.And(d >= 1, d <= time.Hour))
+			if ep.SetOption(mangos.OptionSendDeadline, d) != nil {
+				verif.Assume(false)
+			}
+		}
+		if peers == 0 && verif.Choice("stalled-peer", 2) == 1 {
+			sock.SetOption(mangos.OptionWriteQLen, 1)
+			side = vt.Listen(sock, "a")
+			p1 = side.Peer("p1")
+		}
+		learnRoute(proto, sock, p1)
 		if p1 != nil {
 			p1.SendMode = vt.SendBlock
 		}
+		answering := proto == "rep" || proto == "respondent"
+		t0 := verif.Now()
 		for i := 0; i < 4; i++ {
+			if answering && p1 != nil {
+				// a cooked REP / RESPONDENT only sends in answer to a request it has received
+				p1.Deliver([]byte{0x80, 0, 0, byte(i + 1), 'q'})
+				verif.Quiesce()
+				if _, rerr := ep.RecvMsg(); rerr != nil {
+					break
+				}
+			}
 			var err error
 			g := verif.Go("send", func() { err = ep.SendMsg(newMsg(proto)) })
 			verif.Quiesce()
@@ -130,8 +200,14 @@ func VH18a_modes() {
 				break
 			}
 			verif.Assert(err == nil || err == mangos.ErrProtoState, lab+"/best-effort-send-error")
+			if err == nil {
+				verif.Reach("best-effort-sent")
+			}
 		}
-		verif.Assert(verif.PendingTimers() == 0 || proto == "req" || proto == "surveyor", lab+"/best-effort-left-timers")
+		verif.Assert(verif.Now() == t0, lab+"/best-effort-send-waited-for-the-clock")
+		if !withDeadline {
+			verif.Assert(verif.PendingTimers() == 0 || proto == "req" || proto == "surveyor", lab+"/best-effort-left-timers")
+		}
 		verif.Reach("best-effort")
 	case 3: // fail-no-peers
 		if ep.SetOption(mangos.OptionFailNoPeers, true) != nil {
